@@ -34,6 +34,17 @@ def scratch() -> Path:
     return _scratch
 
 
+def breadcrumb(text: str):
+    """Progress marker for the supervising process (see check.supervise): what the check was doing, should it be killed."""
+    path = os.environ.get("PGVERIF_BREADCRUMB")
+    if path:
+        try:
+            with open(path, "w") as f:
+                f.write(text)
+        except OSError:
+            pass
+
+
 def import_repo():
     """Import the library from /repo's working tree (never an installed copy)."""
     if str(REPO) in sys.path:
@@ -97,6 +108,8 @@ class Report:
 
     def case(self, key=None, nontrivial=True):
         self.evaluations += 1
+        if self.evaluations % 25 == 1:
+            breadcrumb(f"{self.pid} case #{self.evaluations}: {str(key)[:400]}")
         if nontrivial and key is not None:
             self.distinct.add(key if isinstance(key, (str, int, tuple)) else json.dumps(key, sort_keys=True, default=str))
 
